@@ -71,6 +71,8 @@ func keyOnlyOp(op *Op) bool {
 		return !op.WV
 	case OpExist, OpLen, OpSet, OpSetR, OpDel, OpTotals, OpNames, OpEvict, OpBadSet:
 		return true
+	case OpMisc:
+		return op.Flag%6 != 4 // everything but GetAny (Stats, AllocStats, Name, MarshalJSON, ExistAny)
 	}
 	return false
 }
